@@ -43,6 +43,7 @@ def _src(m):
 
 
 TARGET_FILES = {_src(amod), _src(_rec_mod), _src(_tc_mod), _src(_mrec_mod)}
+OPCODE_FILE = _src(amod)
 HANG_S = 20.0
 STEP_LIMIT = 6000
 ROLE_ORDER = {'producer': 0, 'main': 1, 'flusher': 2}
@@ -101,7 +102,7 @@ class Sched(object):
         self.setup_done = False
         self.closed = False
         self.nyield = 0
-        self.tracer = self._make_tracer() if gran == 'line' else None
+        self.tracer = self._make_tracer() if gran in ('line', 'opcode') else None
 
     # -- helpers used by policies
     def producer(self, i):
@@ -122,13 +123,18 @@ class Sched(object):
     def _make_tracer(self):
         sched = self
 
+        opcodes = self.gran == 'opcode'
+
         def local(frame, event, arg):
-            if event == 'line' and S is sched and not sched.aborting:
+            # (no stepping while main sets up: the flusher idling next to create_new_recording adds nothing)
+            if (event == 'line' or event == 'opcode') and S is sched and sched.setup_done and not sched.aborting:
                 sched.yield_point('line')
             return local
 
         def glob(frame, event, arg):
             if event == 'call' and frame.f_code.co_filename in TARGET_FILES:
+                if opcodes and sched.setup_done and frame.f_code.co_filename == OPCODE_FILE:
+                    frame.f_trace_opcodes = True     # preemption between the bytecodes of the module under test
                 return local
             return None
         return glob
@@ -717,15 +723,17 @@ def run_once(case, policy, gran):
     except Exception:
         leftover = -1
     # enqueue order as seen at the lock; requests accepted = call returned normally
-    enq = []
+    when = {}
     started = {}
-    for ev in sched.trace:
+    for t, ev in enumerate(sched.trace):
         if ev[0] == 'B':
             started[ev[1]] = ev[2]
         elif ev[0] == 'P':
-            enq.append((ev[1], started[ev[1]]))
+            when[(ev[1], started[ev[1]])] = t
+        elif ev[0] == 'E':
+            when.setdefault((ev[1], ev[2]), t)
     accepted = [(p, i) for p, ops in enumerate(calls) for i, r in enumerate(ops) if r == 'ok']
-    enq_order = [x for x in enq if x in accepted] + [x for x in accepted if x not in enq]
+    enq_order = sorted(accepted, key=lambda x: when.get(x, 10**9))
     applied, phantom = identify(case, ctx.log, enq_order)
     order = [(p, i) for p, i, _ in applied]
     if sorted(order) != sorted(accepted):
